@@ -30,6 +30,14 @@ type alloc struct {
 type Arena struct {
 	L      Layout
 	allocs []*alloc
+	// Pool: buffers go back to a pool when released, are scrambled (the caller "refills its
+	// receive buffer") and are handed out again for the next allocation of the same size — the
+	// way a deployment's buffer pool behaves. Code that kept a reference to an argument instead
+	// of copying it then sees other bytes.
+	Pool     bool
+	Scramble byte
+	free     map[int][][]byte
+	Reused   int
 }
 
 func New(l Layout) *Arena { return &Arena{L: l} }
@@ -39,7 +47,16 @@ func New(l Layout) *Arena { return &Arena{L: l} }
 func (a *Arena) Put(name string, data []byte) []byte {
 	l := a.L
 	n := len(data)
-	buf := make([]byte, guardLen+n+l.Spare+guardLen)
+	total := guardLen + n + l.Spare + guardLen
+	var buf []byte
+	if a.Pool && len(a.free[total]) > 0 {
+		fl := a.free[total]
+		buf = fl[len(fl)-1]
+		a.free[total] = fl[:len(fl)-1]
+		a.Reused++
+	} else {
+		buf = make([]byte, total)
+	}
 	for i := 0; i < guardLen; i++ {
 		buf[i] = l.Guard
 		buf[guardLen+n+l.Spare+i] = l.Guard
@@ -77,8 +94,22 @@ func (a *Arena) Audit() []string {
 	return out
 }
 
-// Release forgets all allocations (end of a call group).
-func (a *Arena) Release() { a.allocs = a.allocs[:0] }
+// Release forgets all allocations (end of a call group). In pool mode the buffers are
+// scrambled and kept for reuse.
+func (a *Arena) Release() {
+	if a.Pool {
+		if a.free == nil {
+			a.free = map[int][][]byte{}
+		}
+		for _, al := range a.allocs {
+			for i := range al.buf {
+				al.buf[i] = a.Scramble
+			}
+			a.free[len(al.buf)] = append(a.free[len(al.buf)], al.buf)
+		}
+	}
+	a.allocs = a.allocs[:0]
+}
 
 func (a *Arena) Live() int { return len(a.allocs) }
 
